@@ -9,6 +9,7 @@ change to a closure re-opens these obligations.
 -/
 import ZenoModel.Lemmas.ExprLaws
 import ZenoModel.Lemmas.Seq
+import ZenoModel.Lemmas.SeqMerge
 
 namespace Zeno.C05
 open Zeno
@@ -80,6 +81,40 @@ theorem truncate_bounds_rounding {t res hi : Int} (h : 0 < res) (ht : t ≠ 0) (
       t - res < roundUntilDown t res hi :=
   roundUntilDown_spec h ht hh
 
+/-- Merging two stored series (memory with disk, partition with partition): for every period
+    that is still live (at or after the rounded truncateBefore), the merged series holds the
+    merge of the two operands' states of that period — for any relative alignment of the two
+    series on the common grid, any lengths, gaps or overlaps. -/
+theorem series_merge_semantics {e : Ex} (hv : e.valid = true) (hp : e.noPtile = true)
+    {res : Int} (h : 0 < res) (a b : Seq) (ha : CellsWF e a.cells) (hb : CellsWF e b.cells)
+    (hal : (a.hi - b.hi) % res = 0) (tb t : Int)
+    (hlive : roundUntilUp tb res (max a.hi b.hi) ≤ t) :
+    (Sq.merge e res (some a) (some b) tb).at e res t =
+      e.mrg (Sq.at (some a) e res t) (Sq.at (some b) e res t) :=
+  sem_merge hv hp h a b ha hb hal tb t hlive
+
+/-- Series merge is commutative in value on every live period. -/
+theorem series_merge_comm {e : Ex} (hv : e.valid = true) (hp : e.noPtile = true)
+    {res : Int} (h : 0 < res) (a b : Seq) (ha : CellsWF e a.cells) (hb : CellsWF e b.cells)
+    (hal : (a.hi - b.hi) % res = 0) (tb t : Int)
+    (hlive : roundUntilUp tb res (max a.hi b.hi) ≤ t) :
+    (Sq.merge e res (some a) (some b) tb).at e res t =
+      (Sq.merge e res (some b) (some a) tb).at e res t := by
+  have hal' : (b.hi - a.hi) % res = 0 := by
+    have hd : res ∣ a.hi - b.hi := Int.dvd_of_emod_eq_zero hal
+    have : b.hi - a.hi = -(a.hi - b.hi) := by omega
+    rw [this]
+    exact Int.emod_eq_zero_of_dvd (Int.dvd_neg.mpr hd)
+  have hmax : max b.hi a.hi = max a.hi b.hi := Int.max_comm _ _
+  rw [sem_merge hv hp h a b ha hb hal tb t hlive,
+    sem_merge hv hp h b a hb ha hal' tb t (by rw [hmax]; exact hlive)]
+  exact mrg_comm hv hp (at_wf ha res t) (at_wf hb res t)
+
+/-- Merging with an empty series returns the other one unchanged. -/
+theorem series_merge_empty (e : Ex) (res : Int) (s : Sq) (tb : Int) :
+    Sq.merge e res none s tb = s ∧ Sq.merge e res s none tb = s := by
+  cases s <;> simp [Sq.merge]
+
 /-! Non-vacuity: a concrete non-trivial expression and points meet the hypotheses, and the
     homomorphism computes the expected numbers. -/
 
@@ -94,6 +129,15 @@ example : exE.val default (exE.acc default (exPs₁ ++ exPs₂)) = some 3 := by 
 
 def exSeq : Seq := ⟨1000, [[.agg (some 1)], [.agg (some 2)], [.agg (some 3)], [.agg (some 4)]]⟩
 example : Sq.truncate (some exSeq) 10 975 995 = some ⟨990, [[.agg (some 2)], [.agg (some 3)]]⟩ := by
+  decide +kernel
+
+def exSeqB : Seq := ⟨980, [[.agg (some 10)], [.agg none], [.agg (some 30)]]⟩
+example : CellsWF (.agg .sum (.field "a")) exSeq.cells ∧ (exSeq.hi - exSeqB.hi) % 10 = 0 := by
+  constructor
+  · intro c hc; simp [exSeq] at hc; rcases hc with rfl | rfl | rfl | rfl <;> rfl
+  · decide
+example : Sq.merge (.agg .sum (.field "a")) 10 (some exSeq) (some exSeqB) 0 =
+    some ⟨1000, [[.agg (some 1)], [.agg (some 2)], [.agg (some 13)], [.agg (some 4)], [.agg (some 30)]]⟩ := by
   decide +kernel
 
 end Zeno.C05
